@@ -227,7 +227,8 @@ def proj_layout(r):
     if r.get("k") != "ok":
         return {"k": r.get("k")}
     return {"k": "ok", "stmts": [[s["addr"], s["size"], s["bytes"], s["label"], s["mn"]] for s in r["stmts"]],
-            "symtab": r["symtab"], "image": r["image"], "origin": r["origin"]}
+            "symtab": r["symtab"], "image": r["image"], "origin": r["origin"],
+            "listing_addr_code_columns": [l[:17] if l else l for l in (r.get("listing") or [])], "symlines": r.get("symlines")}
 
 
 def size_region(im):
